@@ -2,6 +2,7 @@ package seq
 
 import (
 	"fmt"
+	"unicode/utf8"
 
 	"github.com/glebziz/fs_db/internal/verifh/ev"
 )
@@ -42,6 +43,12 @@ func finish(w *World, r *ev.Result) {
 	for k, v := range st {
 		if v > 0 {
 			r.Class(k)
+		}
+	}
+	for _, k := range w.Case.Keys {
+		if !utf8.ValidString(k) {
+			r.Class("non-utf8-key-in-pool")
+			break
 		}
 	}
 	switch w.Case.Prof {
